@@ -5,6 +5,7 @@ import (
 	"fmt"
 	"math"
 	"strconv"
+	"strings"
 )
 
 // Kind of a model value.
@@ -140,14 +141,42 @@ func numEqual(want, got *MV) bool {
 }
 
 // Diff returns "" when a and b are equal under mode, otherwise a description of the first difference.
-func Diff(a, b *MV, mode EqMode) string { return diffAt(a, b, mode, "$") }
+func Diff(a, b *MV, mode EqMode) string { return diffAt(a, b, mode, &dpath{seg: "$"}) }
 
-func diffAt(a, b *MV, mode EqMode, path string) string {
+// dpath is the path to the value being compared, rendered only when a difference is found (building the string on the
+// way down is quadratic in the nesting depth).
+type dpath struct {
+	up  *dpath
+	seg string
+	idx int // array index when seg is empty
+	key []byte
+}
+
+func (p *dpath) String() string {
+	var segs []string
+	for q := p; q != nil; q = q.up {
+		switch {
+		case q.seg != "":
+			segs = append(segs, q.seg)
+		case q.key != nil:
+			segs = append(segs, "."+shortBytes(q.key))
+		default:
+			segs = append(segs, "["+strconv.Itoa(q.idx)+"]")
+		}
+	}
+	var b strings.Builder
+	for i := len(segs) - 1; i >= 0; i-- {
+		b.WriteString(segs[i])
+	}
+	return b.String()
+}
+
+func diffAt(a, b *MV, mode EqMode, path *dpath) string {
 	if a == nil || b == nil {
 		if a == b {
 			return ""
 		}
-		return path + ": one side missing"
+		return path.String() + ": one side missing"
 	}
 	aNum := a.K == KInt || a.K == KUint || a.K == KFloat
 	bNum := b.K == KInt || b.K == KUint || b.K == KFloat
@@ -190,7 +219,7 @@ func diffAt(a, b *MV, mode EqMode, path string) string {
 			return fmt.Sprintf("%s: array length %d != %d", path, len(a.Arr), len(b.Arr))
 		}
 		for i := range a.Arr {
-			if d := diffAt(a.Arr[i], b.Arr[i], mode, path+"["+strconv.Itoa(i)+"]"); d != "" {
+			if d := diffAt(a.Arr[i], b.Arr[i], mode, &dpath{up: path, idx: i}); d != "" {
 				return d
 			}
 		}
@@ -202,7 +231,7 @@ func diffAt(a, b *MV, mode EqMode, path string) string {
 			if !bytes.Equal(a.Keys[i], b.Keys[i]) {
 				return fmt.Sprintf("%s: key #%d %s != %s", path, i, shortBytes(a.Keys[i]), shortBytes(b.Keys[i]))
 			}
-			if d := diffAt(a.Vals[i], b.Vals[i], mode, path+"."+shortBytes(a.Keys[i])); d != "" {
+			if d := diffAt(a.Vals[i], b.Vals[i], mode, &dpath{up: path, key: nonNil(a.Keys[i])}); d != "" {
 				return d
 			}
 		}
@@ -216,7 +245,7 @@ func DiffRoots(a, b []*MV, mode EqMode) string {
 		return fmt.Sprintf("root count %d != %d", len(a), len(b))
 	}
 	for i := range a {
-		if d := diffAt(a[i], b[i], mode, "$"+strconv.Itoa(i)); d != "" {
+		if d := diffAt(a[i], b[i], mode, &dpath{seg: "$" + strconv.Itoa(i)}); d != "" {
 			return d
 		}
 	}
@@ -514,4 +543,11 @@ func rootsText(r []*MV, max int) string {
 		}
 	}
 	return string(b)
+}
+
+func nonNil(b []byte) []byte {
+	if b == nil {
+		return []byte{}
+	}
+	return b
 }
